@@ -61,14 +61,39 @@ Theorem C04_declared_default : forall f e sid vs i fd d,
   end.
 Proof. exact GenProofs.reset_default_declared. Qed.
 
-(* REFUTED on the unchanged tree for reused targets: an optional member without a declared default keeps the
-   stale value of the previous decode (the generated ResetDefault does not touch it) *)
-Theorem C04_reuse_refuted :
+(* every member is assigned by ResetDefault - its declared default or, where none is declared, the zero value of
+   its type (struct members recursively) - whatever the target held *)
+Theorem C04_reset_every_member : forall f e sid v i fd,
+  nth_error (fields_of e sid) i = Some fd ->
+  match reset_default (S f) e sid v with
+  | VStruct l => nth_error l i = Some (match fdef fd with
+                                       | Some d => d
+                                       | None => match fty fd with TStruct s => reset_default f e s v | t => zero_of f e t end
+                                       end)
+  | _ => False
+  end.
+Proof. exact GenProofs.reset_default_member. Qed.
+
+(* REUSED TARGETS, FULL STRENGTH: the result of decoding does not depend on what the target held before - any
+   schema environment, any struct type, ANY two prior targets (of any shape), any bytes (valid, extended,
+   truncated, hostile). Decoding into a used target is decoding into a fresh one. (Codec/Pinned.v
+   C04_reuse_pinned_refuted / C04_empty_bytes_pinned_refuted: the pinned code kept stale optional members and
+   stale bytes of an empty byte vector.) *)
+Theorem C04_reuse : forall e sid p1 p2 bs, decode_into e sid p1 bs = decode_into e sid p2 bs.
+Proof. exact GenProofs.decode_into_prior_indep. Qed.
+Theorem C04_reuse_fresh : forall e sid prior bs, decode_into e sid prior bs = decode e sid bs.
+Proof. exact GenProofs.decode_into_fresh. Qed.
+(* nested struct members and struct-typed elements likewise (ReadBlock resets first), at any fuel *)
+Theorem C04_reuse_member : forall fuel e tag req sid p1 p2 bs,
+  dec_var fuel e tag req (TStruct sid) p1 bs = dec_var fuel e tag req (TStruct sid) p2 bs.
+Proof. exact GenProofs.dec_var_struct_prior_indep. Qed.
+(* the witness of the former finding on the repaired model *)
+Theorem C04_reuse_witness :
   let e := [[ {| ftag := 0; freq := true; fty := TI32; fdef := None |};
               {| ftag := 1; freq := false; fty := TStr; fdef := None |} ]] in
   decode_into e 0 (VStruct [VInt 7; VStr [98; 111; 111; 109]]) (w_int32 5 0)
-  = DOk (VStruct [VInt 5; VStr [98; 111; 111; 109]]) [].
-Proof. exact GenProofs.reuse_refuted_witness. Qed.
+  = DOk (VStruct [VInt 5; VStr []]) [].
+Proof. exact GenProofs.reuse_witness. Qed.
 
 (* FIRST CLAUSE AT FULL STRENGTH: unknown fields at EVERY struct level. xfields e fds vs Js body (RoundTrip.v: xenc)
    says that body encodes the members vs with the groups Js of unknown fields in front of the members, and that
@@ -110,4 +135,8 @@ Print Assumptions C04_member_absent_required.
 Print Assumptions C04_required_absent.
 Print Assumptions C04_member_absent_optional.
 Print Assumptions C04_declared_default.
-Print Assumptions C04_reuse_refuted.
+Print Assumptions C04_reset_every_member.
+Print Assumptions C04_reuse.
+Print Assumptions C04_reuse_fresh.
+Print Assumptions C04_reuse_member.
+Print Assumptions C04_reuse_witness.
